@@ -659,14 +659,32 @@ func runC05(c *Ctx) error {
 
 		// ---- Coq term ----
 		var ds, ls, fs, ws []string
-		for _, o := range dObs {
-			ds = append(ds, coqObs(o))
+		dirIdx := map[string]int{}
+		for i, d := range cont.Dirs {
+			dirIdx[d.Path] = i
+		}
+		anc := func(p string) string { // indices of the ancestor directories of p present in the container
+			var out []string
+			for {
+				j := strings.LastIndexByte(p, '/')
+				if j < 0 {
+					break
+				}
+				p = p[:j]
+				if k, ok := dirIdx[p]; ok {
+					out = append(out, fmt.Sprintf("%d%%nat", k))
+				}
+			}
+			return lib.CoqList(out)
+		}
+		for i, o := range dObs {
+			ds = append(ds, fmt.Sprintf("(%s, %s)", anc(cont.Dirs[i].Path), coqObs(o)))
 		}
 		for i, o := range lObs {
-			ls = append(ls, fmt.Sprintf("(%d%%N, %s)", destCode(cont.Symlinks[i].Dest), coqObs(o)))
+			ls = append(ls, fmt.Sprintf("(%s, %d%%N, %s)", anc(cont.Symlinks[i].Path), destCode(cont.Symlinks[i].Dest), coqObs(o)))
 		}
 		for i, o := range fObs {
-			fs = append(fs, fmt.Sprintf("(%s, %s)", lib.ToRle(signedFiles[cont.Files[i].Path]).Coq(), coqObs(o)))
+			fs = append(fs, fmt.Sprintf("(%s, %s, %s)", anc(cont.Files[i].Path), lib.ToRle(signedFiles[cont.Files[i].Path]).Coq(), coqObs(o)))
 		}
 		for _, w := range wounds {
 			ws = append(ws, woundCoq(w))
